@@ -16,7 +16,8 @@ pub trait Serialize {
             r is Ok ==> (*final(writer)).out().len() == (*old(writer)).out().len() + self.spec_write_len(); // [C05] Serialize-trait-level-write_len-eq-bytes-written
     fn write_len(&self) -> (r: usize)
         requires self.ser_inv(),
-        ensures r == self.spec_write_len();
+        ensures
+            r == self.spec_write_len(); // [C05] Serialize-trait-level-write_len-value
 }
 
 //@trusted T2 bytes::Bytes derefs to the byte slice of its content; no allocation exceeds isize::MAX bytes (std allocator rule), so Bytes::len(), Vec::len() and slice lengths are <= isize::MAX
